@@ -48,6 +48,20 @@ func mkBases(rng *rand.Rand, per int, maxLen int) []base {
 	return out
 }
 
+// slowLimitUs: wall-clock allowance for one decode: 2.5 s + 1.5 us per input byte (a 10 MiB packet decodes in
+// well under a second on this machine); a case counts as slow only if it is slow again in two immediate re-runs
+func slowLimitUs(n int) int64 { return 2_500_000 + int64(n)*3/2 }
+
+func stillSlow(rq decReq) bool {
+	for k := 0; k < 2; k++ {
+		r := decodeMany([]decReq{rq}, 1, 15000)[0]
+		if r.Died == "" && r.Us <= slowLimitUs(len(rq.Bytes)) {
+			return false
+		}
+	}
+	return true
+}
+
 func classifyPanic(msg string) string {
 	switch {
 	case strings.Contains(msg, "makeslice"):
@@ -113,6 +127,9 @@ func runM(pid string, cs []mCase, capMs int) ([]gCase, [][]Failure, map[string]i
 				g.Huge = true
 			}
 			add("decode/over-allocation", fmt.Sprintf("decoding %d bytes allocated %d bytes (> 256 x input + 1 MiB)", len(g.Bytes), r.Alloc))
+		}
+		if pid == "C05" && r.Died == "" && r.Us > slowLimitUs(len(g.Bytes)) && stillSlow(reqs[i]) {
+			add("decode/slow", fmt.Sprintf("decoding %d bytes took %d us (limit %d us: not linear in the input)", len(g.Bytes), r.Us, slowLimitUs(len(g.Bytes))))
 		}
 		classes[g.Kind+"/"+cls]++
 		if r.Died == "" && !strings.HasPrefix(r.Obs, "OPanic") {
